@@ -332,12 +332,11 @@ func (m *Model) evalConds(c Conds, b, n string) condEval {
 		}
 	}
 	if cur == nil {
-		mustNotExist := c.GM.K != "" && ev.Query.Get("ifGenerationMatch") == "0"
 		switch {
 		case ev.Bad:
-		case mustNotExist && c.Count() > 1:
-			ev.Unspecified = true
 		case ev.FailMatch || ev.FailNot:
+			// also when "must not exist" (which holds) comes with further conditions: C04 lets only 'no condition' or
+			// 'must not exist' pass on an absent object, every other supplied condition fails there
 			// the property fixes 412 here; 304 is tolerated when a not-match condition was supplied
 			ev.OK412, ev.OK304 = true, ev.AnyNotKind
 		}
